@@ -801,13 +801,23 @@ fn parent(tier: Tier) -> i32 {
         json!({
             "tier": tier.name(),
             "policy_tokens": {"alphabet": POLICY_TOKENS, "max_len": tier.pick(3, 4), "positions": policy_positions().iter().map(|p| p.0).collect::<Vec<_>>()},
-            "policy_tokens_wide": {"alphabet_size": POLICY_TOKENS_WIDE.len() + POLICY_TOKENS_WIDE_EXTRA.len(), "max_len": tier.pick(2, 3), "positions": ["when", "top", "scope-all"]},
+            "policy_tokens_wide": {"alphabet_size": POLICY_TOKENS_WIDE.len() + POLICY_TOKENS_WIDE_EXTRA.len(), "max_len": tier.pick(2, 3), "positions": policy_positions_wide().iter().map(|p| p.0).collect::<Vec<_>>()},
             "schema_tokens": {"alphabet": SCHEMA_TOKENS, "max_len": tier.pick(3, 4), "positions": schema_positions().iter().map(|p| p.0).collect::<Vec<_>>()},
-            "schema_tokens_wide": {"alphabet_size": SCHEMA_TOKENS_WIDE.len(), "max_len": tier.pick(2, 3), "positions": ["top", "namespace-body", "attr-type"]},
-            "string_escapes": {"alphabet": ESCAPE_CHARS, "max_len": tier.pick(4, 5), "positions": escape_positions().iter().map(|p| p.0).collect::<Vec<_>>()},
-            "bytes": if q { "all byte strings of length <= 1 (257) plus all length-2 strings over a 40-byte alphabet (1600), into every entry point" } else { "all byte strings of length <= 2 (65793) into every entry point" },
-            "byte_substitution": if q { "every position of every seed document x (40-byte alphabet for text/JSON seeds, all 256 values for protobuf seeds), plus every single-byte deletion and every proper prefix" } else { "every position of every seed document x all 256 byte values, plus every single-byte deletion and every proper prefix" },
-            "json_mutations": if q { "every single structural mutation of each JSON seed (delete, 12 retypes, wrap 1/48 deep in array/object, every string -> every other string of the document + 22 pool strings, every key -> every other key of the document + escape keys (+ EST operator keys), duplicate key same/null)" } else { "quick set plus every ordered pair of reduced mutations (delete, null, one retype, duplicate key)" },
+            "schema_tokens_wide": {"alphabet_size": SCHEMA_TOKENS_WIDE.len(), "max_len": tier.pick(2, 3), "positions": schema_positions_wide().iter().map(|p| p.0).collect::<Vec<_>>()},
+            "string_escapes": {"alphabet": ESCAPE_CHARS, "max_len": tier.pick(3, 5), "positions": escape_positions().iter().map(|p| p.0).collect::<Vec<_>>()},
+            "token_sweep_entry_points": "policy text: PolicySet::from_str (+ formatter and full pipeline when it parses), Policy::parse, Template::parse; `top` position also Expression / RestrictedExpression / EntityUid / names / extension constructors; schema text: Schema and SchemaFragment ::from_cedarschema_str, schema_str_to_json_with_resolved_types. The FromStr variants and the FFI text wrappers see the bytes, nest, cross and short-seed substitution families",
+            "bytes": if q { "all byte strings of length <= 1 (257) plus all length-2 strings over a 40-byte alphabet (1600), into every entry point (text, JSON, protobuf, reader-based)" } else { "all byte strings of length <= 2 (65793) into every entry point (text, JSON, protobuf, reader-based)" },
+            "byte_substitution": if q {
+                "every position of a seed document x alphabet, plus every single-byte deletion and every proper prefix; alphabet: 20 bytes for the 5 text seeds, 70 bytes (all tags of fields 0-7, 0x7f/0x80/0x81/0xc3/0xfe/0xff) for the 8 protobuf seeds, 10 bytes for JSON seeds of at most 700 bytes (larger JSON seeds: structural mutations only)"
+            } else {
+                "every position of a seed document x alphabet, plus every single-byte deletion and every proper prefix; alphabet: all 256 values for the 5 text and 8 protobuf seeds, 40 bytes for JSON seeds of at most 1300 bytes, 10 bytes for larger JSON seeds"
+            },
+            "json_mutations": if q {
+                "every single structural mutation of each of the 16 JSON seeds: delete member/element, 12 retypes (null, true, 0, -1, 2^63, -2^63-1, 1.5, 1e400, \"\", \"x\", [], {}), wrap 1 and 48 deep in array and in object, every string -> 22 pool strings + the first 6 strings of the document, every key -> escape keys (__entity/__extn/__expr) + the first 6 keys of the document (+ 38 EST operator keys for policy documents), duplicate key (same value / null)"
+            } else {
+                "every single structural mutation of each of the 16 JSON seeds (as quick, but every string -> every other string of the document and every key -> every other key), plus every ordered pair of reduced mutations (delete, null, one retype, duplicate key) of 11 seeds (policy, template, schema, entities, entity, context, entity uid, FFI policy set, formatting / context-parsing / scope-variables calls)"
+            },
+            "nesting_depths": nest_depths(tier),
             "nesting_depth": MAX_DEPTH,
             "per_case_limit_s": ALONE_LIMIT_S,
         }),
